@@ -1360,7 +1360,7 @@ class EStream(Engine):
         return {'st': st}, incs
 
     # ---- calls that return new stream objects ---------------------------------------------------------------
-    NEW_OPS = ('copy', 'copy.copy', 'slice', 'add', 'radd', 'and', 'or', 'xor', 'invert', 'lshift', 'rshift', 'mul',
+    NEW_OPS = ('copy', 'copy.copy', 'deepcopy', 'pickle', 'slice', 'add', 'radd', 'and', 'or', 'xor', 'invert', 'lshift', 'rshift', 'mul',
                'rmul', 'cut', 'split', 'join', 'unpack', 'ctor', 'bits')
 
     def _new_call(self, obj, ev, operand):
@@ -1372,6 +1372,11 @@ class EStream(Engine):
             return obj.copy()
         if op == 'copy.copy':
             return _copy.copy(obj)
+        if op == 'deepcopy':
+            return _copy.deepcopy([obj, obj])[1]
+        if op == 'pickle':
+            import pickle as _pickle
+            return _pickle.loads(_pickle.dumps(obj))
         if op == 'slice':
             return obj[self._key(ev.get('key') if isinstance(ev.get('key'), dict) and 'sl' in ev['key'] else {'sl': [None, None, None]})]
         if op == 'add':
@@ -1444,9 +1449,15 @@ class EStream(Engine):
                 if kernel.is_stream(o) and kernel.is_bits(o):
                     if o is s:
                         self.probe('call returned the stream itself')
-                    elif kernel.get_pos(o) != 0:
+                    elif kernel.get_pos(o) != 0 and op not in ('deepcopy', 'pickle'):
+                        # (a deep copy / unpickled stream may keep the position or start at 0: both are met in legitimate code)
                         incs.append(self.inc(f'{op}|{trig}|new-object-pos-nonzero', pos=kernel.get_pos(o)))
                         break
+            if op in ('copy', 'copy.copy', 'deepcopy', 'pickle') and self.mutable and kernel.is_bits(val) and val is not s:
+                # the copy is cut short and extended in place: the stream it was made from stays as it is (content, pos <= len)
+                call(lambda: val.__delitem__(slice(len(val) // 3, None)))
+                call(val.append, '0b1')
+                self.probe('copy of the stream mutated afterwards')
             if p:
                 self.probe('new object from positioned stream')
         self._post(incs, op, trig, (p,))
@@ -2250,8 +2261,15 @@ class EStream(Engine):
                 return f's.replace({o1}, {o2}{se})'
             if op in ('append', 'prepend'):
                 return f's.{op}({o1})'
+            if op in ('copy.copy', 'copy', 'deepcopy', 'pickle') and self.mutable:
+                mk = {'copy.copy': 'copy.copy(s)', 'copy': 's.copy()', 'deepcopy': 'copy.deepcopy([s, s])[1]', 'pickle': 'pickle.loads(pickle.dumps(s))'}[op]
+                return f"c = {mk}; del c[len(c) // 3:]; c.append('0b1')"
             if op == 'copy.copy':
                 return 'copy.copy(s)'
+            if op == 'deepcopy':
+                return 'copy.deepcopy([s, s])[1]'
+            if op == 'pickle':
+                return 'pickle.loads(pickle.dumps(s))'
             if op == 'ctor':
                 return f"{self.cfg.get('cls')}(s)"
             if op in ('rol', 'ror'):
@@ -2286,7 +2304,7 @@ class EStream(Engine):
         self.start(cfg)
         try:
             C = cfg.get('cls')
-            lines = ['import bitstring, copy', 'from bitstring import *',
+            lines = ['import bitstring, copy, pickle', 'from bitstring import *',
                      f"s = {C}(bin='{self.B}'); s.pos = {self.p}" + ("  # built from a file / slice in the run" if cfg.get('route') in ('file', 'slice') else '')]
             if cfg.get('ba'):
                 lines.append('bitstring.options.bytealigned = True')
